@@ -40,10 +40,11 @@ def __d2state__(t: Union[Tuple[Type, U], Tuple[Tuple[Type, U], ...]]) -> Tuple[T
         our_type = t
         while isinstance(our_type, tuple):
             our_type = our_type[0]  # type: ignore
-        # Compute the rest
+        # Compute the rest: a component can itself be a tuple of states
+        # (minimised product of minimised automata), flatten it recursively
         rest = []
         for tt in t:
-            rest.append(__extract__(tt)[1])
+            rest.append(__d2state__(tt)[1])
         return (our_type, tuple(rest))
     return t  # type: ignore
 
